@@ -48,9 +48,11 @@ func (q *Queue[T]) Acquire(ctx context.Context, e T) (func(), error) {
 	if found {
 		return func() {}, nil
 	}
+	vpGate("acq_lock", q, &e)
 	q.mu.Lock()
 	if len(q.active)+len(q.queued) < q.max {
 		q.active = append(q.active, &e)
+		vpEvent("acq_fast", q, &e)
 		q.mu.Unlock()
 		return q.releaseFn(&e), nil
 	}
@@ -58,23 +60,29 @@ func (q *Queue[T]) Acquire(ctx context.Context, e T) (func(), error) {
 	w := make(chan struct{}, 1)
 	q.queued = append(q.queued, &e)
 	q.wait = append(q.wait, &w)
+	vpEvent("enqueue", q, &e)
 	q.mu.Unlock()
+	vpGate("select", q, &e)
 	// wait on both context and queue
 	select {
 	case <-ctx.Done():
+		vpGate("cancel_lock", q, &e)
 		// context abort, remove queued entry
 		q.mu.Lock()
 		if i := slices.Index(q.queued, &e); i >= 0 {
 			q.queued = slices.Delete(q.queued, i, i+1)
 			q.wait = slices.Delete(q.wait, i, i+1)
+			vpEvent("cancel_rm", q, &e)
 			q.mu.Unlock()
 			return nil, ctx.Err()
 		}
+		vpEvent("cancel_pass", q, &e)
 		q.mu.Unlock()
 		// queued entry found, assume race condition with context and entry being released, release next entry
 		q.release(&e)
 		return nil, ctx.Err()
 	case <-w:
+		vpEventU("wake", q, &e)
 		return q.releaseFn(&e), nil
 	}
 }
@@ -93,19 +101,24 @@ func (q *Queue[T]) TryAcquire(ctx context.Context, e T) (func(), error) {
 	if found {
 		return func() {}, nil
 	}
+	vpGate("try_lock", q, &e)
 	q.mu.Lock()
 	defer q.mu.Unlock()
 	if len(q.active)+len(q.queued) < q.max {
 		q.active = append(q.active, &e)
+		vpEvent("try_ok", q, &e)
 		return q.releaseFn(&e), nil
 	}
+	vpEvent("try_fail", q, &e)
 	return nil, nil
 }
 
 // release next entry or noop.
 func (q *Queue[T]) release(prev *T) {
+	vpGate("rel_lock", q, prev)
 	q.mu.Lock()
 	defer q.mu.Unlock()
+	defer vpEvent("released", q, prev)
 	// remove prev entry from active list
 	if i := slices.Index(q.active, prev); i >= 0 {
 		q.active = slices.Delete(q.active, i, i+1)
@@ -131,6 +144,7 @@ func (q *Queue[T]) release(prev *T) {
 	}
 	// release queued entry, move to active list, and remove from queued/wait lists
 	close(*q.wait[i])
+	vpEventU("promote", q, q.queued[i])
 	q.active = append(q.active, q.queued[i])
 	q.queued = slices.Delete(q.queued, i, i+1)
 	q.wait = slices.Delete(q.wait, i, i+1)
@@ -209,6 +223,7 @@ func AcquireMulti[T any](ctx context.Context, e T, qList ...*Queue[T]) (context.
 		if err == nil && acquired {
 			break
 		}
+		vpMulti("backoff", &e, lockI, i)
 		// cleanup on failed attempt
 		if lockI > i {
 			doneList[lockI]()
@@ -224,6 +239,7 @@ func AcquireMulti[T any](ctx context.Context, e T, qList ...*Queue[T]) (context.
 			return ctx, nil, err
 		}
 	}
+	vpMulti("acquired", &e, lockI, len(qList))
 	// success, update context
 	ctxVal := valMulti[T]{qList: qList}
 	newCtx := context.WithValue(ctx, ctxKey, &ctxVal)
